@@ -923,6 +923,12 @@ func c08MaxCidOpts(tier string) []drv.Opts {
 	return l
 }
 
+// c08ReadersOpts: the overlapping-readers scenarios; the whole-CID lookup path comes second so that
+// the quick tier's -race complement (first two configurations) runs it.
+func c08ReadersOpts(tier string) []drv.Opts {
+	return []drv.Opts{{}, {Whole: true}, {AllowDup: true}, {V1: true}}
+}
+
 func c08ROOpts(tier string) []drv.Opts { return []drv.Opts{{}, {Whole: true}} }
 
 func c08RO1Opts(tier string) []drv.Opts {
@@ -1282,6 +1288,43 @@ var c08Scenarios = []c08Scenario{
 		return e
 	}},
 	// ---- informational: outside the property statement
+	{Name: "S33", Opts: c08ReadersOpts, Desc: "storage: (a stored before) Has a || Has b || Has a'; Put b (readers of one kind overlap under the shared lock)", New: func(dir string, o drv.Opts) *c08Env {
+		e, st := c08NewST(dir, o)
+		e.prePut(st, "a")
+		e.names = []string{"T0", "T1", "T2"}
+		e.bodies = []func(){
+			func() { e.opHas(st, 0, "a") },
+			func() { e.opHas(st, 1, "b") },
+			seq(func() { e.opHas(st, 2, "a'") }, func() { e.opPut(st, 2, "b") }),
+		}
+		return e
+	}},
+	{Name: "S34", Opts: c08ReadersOpts, Desc: "storage: (a, b stored before) Get a; Has b || Get a; Has a || Get b || Put a'", New: func(dir string, o drv.Opts) *c08Env {
+		e, st := c08NewST(dir, o)
+		e.prePut(st, "a")
+		e.prePut(st, "b")
+		e.names = []string{"T0", "T1", "T2", "T3"}
+		e.bodies = []func(){
+			seq(func() { e.opGet(st, 0, "a") }, func() { e.opHas(st, 0, "b") }),
+			seq(func() { e.opGet(st, 1, "a") }, func() { e.opHas(st, 1, "a") }),
+			func() { e.opGet(st, 2, "b") },
+			func() { e.opPut(st, 3, "a'") },
+		}
+		return e
+	}},
+	{Name: "S35", Opts: c08ReadersOpts, Desc: "bs: (a, b stored before) Has a; GetSize b || Has b; Get a || GetSize a || Put a'", New: func(dir string, o drv.Opts) *c08Env {
+		e, st := c08NewBS(dir, o)
+		e.prePut(st, "a")
+		e.prePut(st, "b")
+		e.names = []string{"T0", "T1", "T2", "T3"}
+		e.bodies = []func(){
+			seq(func() { e.opHas(st, 0, "a") }, func() { e.opSize(st, 0, "b") }),
+			seq(func() { e.opHas(st, 1, "b") }, func() { e.opGet(st, 1, "a") }),
+			func() { e.opSize(st, 2, "a") },
+			func() { e.opPut(st, 3, "a'") },
+		}
+		return e
+	}},
 	{Name: "I1", Desc: "INFORMATIONAL, ReadOnly over 8 blocks: for k := range AllKeysChan { Get k } || Close", Info: true, NoRace: true, Opts: func(string) []drv.Opts { return []drv.Opts{{}} }, New: func(dir string, o drv.Opts) *c08Env {
 		e, st := c08NewRO(dir, o, false, "a", "b", "c", "L40", "L41", "L42", "L43", "L44")
 		e.info = true
